@@ -13,6 +13,7 @@ import AlgoVerif.Proofs.C14Dijkstra
 import AlgoVerif.Proofs.C14Prim
 import AlgoVerif.Proofs.C14Admits
 import AlgoVerif.Proofs.C14Kept
+import AlgoVerif.Proofs.C14Gen
 import AlgoVerif.Props.C18
 /-!
 # C14 — property theorems
@@ -471,6 +472,32 @@ theorem C14_reverse_object (k : Kind) (hk : k.isDirected = true) (n : Nat) (es :
 example : flipSpec 3 [⟨2, 0, 7⟩, ⟨0, 1, 5⟩, ⟨5, 1, 1⟩, ⟨0, 2, 6⟩, ⟨0, 1, 4⟩] =
     [⟨1, 0, 5⟩, ⟨2, 0, 6⟩, ⟨1, 0, 4⟩, ⟨0, 2, 7⟩] := by decide
 
+/-- **Reverse of Reverse.**  Reversing a directed graph twice gives (a new object holding) the graph with exactly the
+stored edges of the original: the calls are `flipSpec n (flipSpec n es)` — the valid calls of `es`, regrouped by head
+vertex —, `E()` is the same and so is the edge relation.  (The order inside an adjacency list can differ from the
+original's; `C14_accessors` gives it exactly.) -/
+theorem C14_reverse_reverse (k : Kind) (hk : k.isDirected = true) (n : Nat) (es : List EdgeIn) :
+    (GObj.build k n es).reverse.reverse = GObj.build k n (flipSpec n (flipSpec n es)) ∧
+    (∀ x, x ∈ flipSpec n (flipSpec n es) ↔ x ∈ es ∧ validE n x = true) ∧
+    (GObj.build k n es).reverse.reverse.E = (GObj.build k n es).E ∧
+    (∀ a b, (GObj.build k n es).reverse.reverse.g.HasArc a b ↔ (GObj.build k n es).g.HasArc a b) := by
+  obtain ⟨h1, hm1, he1, ha1⟩ := C14_reverse_object k hk n es
+  obtain ⟨h2, hm2, he2, ha2⟩ := C14_reverse_object k hk n (flipSpec n es)
+  rw [h1]
+  refine ⟨h2, fun x => ?_, ?_, fun a b => ?_⟩
+  · rw [hm2]
+    constructor
+    · rintro ⟨e, he, hv, rfl⟩
+      obtain ⟨e', he', hv', rfl⟩ := (hm1 e).1 he
+      exact ⟨he', hv'⟩
+    · rintro ⟨hx, hv⟩
+      exact ⟨⟨x.v, x.u, x.w⟩, (hm1 _).2 ⟨x, hx, hv, rfl⟩, by rw [validE_flip]; exact hv, rfl⟩
+  · rw [he2, ← h1, he1]
+  · rw [ha2 a b, ← h1, ha1 b a]
+
+example : flipSpec 3 (flipSpec 3 [⟨2, 0, 7⟩, ⟨0, 1, 5⟩, ⟨5, 1, 1⟩, ⟨0, 2, 6⟩, ⟨0, 1, 4⟩]) =
+    [⟨2, 0, 7⟩, ⟨0, 1, 5⟩, ⟨0, 1, 4⟩, ⟨0, 2, 6⟩] := by decide
+
 /-! ### several objects -/
 
 /-- **Every history on any number of objects refines the Spec world** (`SWorld`, `Spec/C14S.lean`): each object is
@@ -633,3 +660,96 @@ example : (((Session.init .undirected 6 [⟨0, 1, 0⟩, ⟨1, 2, 0⟩, ⟨3, 4, 
       (.paths .dfs 0)).map (fun
         | .paths p => (p.visited.toList, p.edgeTo.toList)
         | _ => ([], [])) = .ok ([true, true, true, false, false, false], [0, 0, 1, 0, 0, 0]) := by decide
+
+/-! ## the GENERATED adjacency code (`Generated/C14Gen.lean`, rewritten from `graph/{graph,directed,undirected}.go` by
+`/verif/extract/go2lean` on every check run) against the hand Model of the graph objects
+
+`Gen.ofD o` / `Gen.ofU o` read a hand-Model object `o : GObj` as the generated `Directed` / `Undirected` structure,
+`Gen.WFd` / `Gen.WFu` say that `adj` (and `ins`) have `V` entries — what the constructor establishes and `AddEdge` keeps
+(part of each statement).  All statements are equalities of outcomes for ALL arguments, invalid vertices included.
+An edit of the Go text of these functions that changes what they compute changes the generated definitions and breaks
+these theorems (helper lemmas: `Proofs/C14Gen.lean`). -/
+
+/-- `NewDirected(V, edges...)`: the generated constructor (both loops, one `AddEdge` per pair) is `GObj.build`;
+for `V < 0` it panics (`make`). -/
+theorem C14_generated_directed_new (n : Nat) (es : List EdgeIn) (V : Int) (hV : V < 0) (edges : Array (Array Int)) :
+    Generated.Graph.NewDirected (n : Int) (Gen.edgesOf es) = .ok (Gen.ofD (GObj.build .directed n es)) ∧
+    Gen.WFd (GObj.build .directed n es) ∧
+    Generated.Graph.NewDirected V edges = .panic :=
+  ⟨(Gen.D_New n es).1, (Gen.D_New n es).2, Gen.D_New_neg V hV edges⟩
+
+/-- `(*Directed).AddEdge(v, w)` at ANY point of a history (every well-formed object, every pair of `int`s):
+the generated code is `GObj.addEdge`, and well-formedness is kept. -/
+theorem C14_generated_directed_addEdge (o : GObj) (hw : Gen.WFd o) (u v wt : Int) :
+    Generated.Graph.Directed.AddEdge (Gen.ofD o) u v = .ok (Gen.ofD (o.addEdge u v wt)) ∧
+    Gen.WFd (o.addEdge u v wt) :=
+  Gen.D_AddEdge o hw u v wt
+
+/-- `V()`, `E()`, `isVertexValid`, `InDegree(v)`, `OutDegree(v)` of `*Directed`: the generated accessors are the hand
+Model's, for every object and every `int` (`-1` for an invalid vertex; a panic where the Go code would index outside
+`ins` / `adj`). -/
+theorem C14_generated_directed_accessors (o : GObj) (v : Int) :
+    Generated.Graph.Directed.V (Gen.ofD o) = o.V ∧ Generated.Graph.Directed.E (Gen.ofD o) = o.E ∧
+    Generated.Graph.Directed.isVertexValid (Gen.ofD o) v = o.g.isVertexValid v ∧
+    Generated.Graph.Directed.InDegree (Gen.ofD o) v = o.inDegree v ∧
+    Generated.Graph.Directed.OutDegree (Gen.ofD o) v = o.outDegree v :=
+  ⟨Gen.D_V o, Gen.D_E o, Gen.D_isVertexValid o v, Gen.D_InDegree o v, Gen.D_OutDegree o v⟩
+
+/-- `(*Directed).Reverse()`: with fuel for the `V+1` tests of its `for v := 0; v < g.V(); v++` loop the generated code
+(constructor, both loops, `rev.AddEdge(w, v)`) is `GObj.reverse`, a well-formed object. -/
+theorem C14_generated_directed_reverse (fuel : Nat) (o : GObj) (hw : Gen.WFd o) (hf : o.g.n + 1 ≤ fuel) :
+    Generated.Graph.Directed.Reverse fuel (Gen.ofD o) = .ok (Gen.ofD o.reverse) ∧ Gen.WFd o.reverse :=
+  Gen.D_Reverse fuel o hw hf
+
+/-- `NewUndirected(V, edges...)` is `GObj.build`; for `V < 0` it panics. -/
+theorem C14_generated_undirected_new (n : Nat) (es : List EdgeIn) (V : Int) (hV : V < 0) (edges : Array (Array Int)) :
+    Generated.Graph.NewUndirected (n : Int) (Gen.edgesOf es) = .ok (Gen.ofU (GObj.build .undirected n es)) ∧
+    Gen.WFu (GObj.build .undirected n es) ∧
+    Generated.Graph.NewUndirected V edges = .panic :=
+  ⟨(Gen.U_New n es).1, (Gen.U_New n es).2, Gen.U_New_neg V hV edges⟩
+
+/-- `(*Undirected).AddEdge(v, w)` at any point of a history, self-loops included. -/
+theorem C14_generated_undirected_addEdge (o : GObj) (hw : Gen.WFu o) (u v wt : Int) :
+    Generated.Graph.Undirected.AddEdge (Gen.ofU o) u v = .ok (Gen.ofU (o.addEdge u v wt)) ∧
+    Gen.WFu (o.addEdge u v wt) :=
+  Gen.U_AddEdge o hw u v wt
+
+/-- `V()`, `E()`, `isVertexValid`, `Degree(v)` of `*Undirected`. -/
+theorem C14_generated_undirected_accessors (o : GObj) (v : Int) :
+    Generated.Graph.Undirected.V (Gen.ofU o) = o.V ∧ Generated.Graph.Undirected.E (Gen.ofU o) = o.E ∧
+    Generated.Graph.Undirected.isVertexValid (Gen.ofU o) v = o.g.isVertexValid v ∧
+    Generated.Graph.Undirected.Degree (Gen.ofU o) v = o.outDegree v :=
+  ⟨Gen.U_V o, Gen.U_E o, Gen.U_isVertexValid o v, Gen.U_Degree o v⟩
+
+/-- `(*Orders).ReversePostOrder()` (the loop writing `revOrder[l-1-i]`) is the hand Model's `reversePostOrder`;
+`PreRank(v)` / `PostRank(v)` are the table reads. -/
+theorem C14_generated_orders (o : Orders) (v : Nat) (h1 : v < o.preRank.size) (h2 : v < o.postRank.size) :
+    Generated.Graph.Orders.ReversePostOrder (Gen.ofO o) = .ok (o.reversePostOrder.map Int.ofNat).toArray ∧
+    Generated.Graph.Orders.PreRank (Gen.ofO o) v = .ok (o.preRank[v] : Int) ∧
+    Generated.Graph.Orders.PostRank (Gen.ofO o) v = .ok (o.postRank[v] : Int) := by
+  refine ⟨Gen.O_ReversePostOrder o, ?_, ?_⟩
+  · rw [Gen.O_PreRank]; simp [h1]
+  · rw [Gen.O_PostRank]; simp [h2]
+
+/-- `(*ConnectedComponents).Components()` and `(*StronglyConnectedComponents).Components()` (the two copies of the
+grouping loop) are the hand Model's `Components.components` — also its panic for an `id` entry ≥ `count`;
+`ID`, `IsConnected`, `IsStronglyConnected` are reads of the `id` table. -/
+theorem C14_generated_components (c : Components) (v w : Nat) (hv : v < c.id.size) (hw : w < c.id.size) :
+    Generated.Graph.ConnectedComponents.Components (Gen.ofCC c) = c.components.map Gen.compsOf ∧
+    Generated.Graph.StronglyConnectedComponents.Components (Gen.ofSCC c) = c.components.map Gen.compsOf ∧
+    Generated.Graph.ConnectedComponents.ID (Gen.ofCC c) v = .ok (c.id[v] : Int) ∧
+    Generated.Graph.StronglyConnectedComponents.ID (Gen.ofSCC c) v = .ok (c.id[v] : Int) ∧
+    Generated.Graph.ConnectedComponents.IsConnected (Gen.ofCC c) v w = .ok (c.id[v] == c.id[w]) ∧
+    Generated.Graph.StronglyConnectedComponents.IsStronglyConnected (Gen.ofSCC c) v w = .ok (c.id[v] == c.id[w]) := by
+  refine ⟨Gen.CC_Components c, Gen.SCC_Components c, ?_, ?_, Gen.CC_IsConnected c v w hv hw,
+    Gen.SCC_IsStronglyConnected c v w hv hw⟩
+  · rw [Gen.CC_ID]; simp [hv]
+  · rw [Gen.SCC_ID]; simp [hv]
+
+-- the generated code run on the graph 0→1, 1→2, 2→0, 0→7 (invalid, ignored) over 3 vertices, then reversed
+example : (Generated.Graph.NewDirected 3 #[#[0, 1], #[1, 2], #[2, 0], #[0, 7]]).bind (Generated.Graph.Directed.Reverse 4)
+    = .ok ⟨3, 3, #[1, 1, 1], #[#[2], #[0], #[1]]⟩ := by decide
+-- the hypotheses of the theorems above hold of every object a client can build (here with a self-loop)
+example : Gen.WFd (GObj.build .directed 3 [⟨0, 1, 0⟩, ⟨1, 1, 0⟩]) := (Gen.D_New 3 _).2
+example : Gen.WFu (GObj.build .undirected 3 [⟨0, 1, 0⟩, ⟨1, 1, 0⟩]) := (Gen.U_New 3 _).2
+example : Generated.Graph.ConnectedComponents.Components ⟨2, #[0, 1, 0, 1]⟩ = .ok #[#[0, 2], #[1, 3]] := by decide
